@@ -21,6 +21,10 @@ import (
 	"github.com/spikeekips/mitum/util/valuehash"
 	"pgregory.net/rapid"
 	"verif/internal/ev"
+
+	leveldbOpt "github.com/syndtr/goleveldb/leveldb/opt"
+	leveldbStorage "github.com/syndtr/goleveldb/leveldb/storage"
+	leveldbutil "github.com/syndtr/goleveldb/leveldb/util"
 )
 
 // ---- world (per process)
@@ -128,14 +132,88 @@ type c38Phase struct {
 	Reopen    bool // before this phase the pool is closed and opened again on the same storage, with a new maker (node restart)
 	FaultFrom int  // 0: none; else the FaultFrom-th write to the storage issued while the calls of this phase run is refused ...
 	FaultN    int  // ... and so are the FaultN-1 writes after it (c38FaultSticky: every later write of the phase); writes work again after the phase
+
+	// transient read failure: right before the calls of this phase the storage is compacted (memtable -> table file; what leveldb does
+	// on its own when the memtable is full), then the ReadFrom-th read of a table file issued while the calls run fails with an I/O
+	// error, and so do the ReadN-1 reads after it; reads work again afterwards. 0: none (and no compaction)
+	ReadFrom int
+	ReadN    int
 }
 
 const c38FaultSticky = 1 << 20
 
 var errC38Fault = errors.New("c38 injected storage write failure")
 
+var errC38ReadFault = errors.New("c38 injected storage read failure")
+
 func c38IsFault(err error) bool {
-	return err != nil && (errors.Is(err, errC38Fault) || strings.Contains(err.Error(), errC38Fault.Error()))
+	return err != nil && (errors.Is(err, errC38Fault) || strings.Contains(err.Error(), errC38Fault.Error()) ||
+		errors.Is(err, errC38ReadFault) || strings.Contains(err.Error(), errC38ReadFault.Error()))
+}
+
+// c38ReadFaults fails drawn reads of the table files of one goleveldb storage (no hook needed: leveldbstorage.NewStorage takes any
+// goleveldb storage.Storage). Armed only while the calls of a phase run.
+type c38ReadFaults struct {
+	armed           atomic.Bool
+	from, n         atomic.Int64
+	reads, injected atomic.Int64
+}
+
+func (f *c38ReadFaults) arm(from, n int) {
+	f.reads.Store(0)
+	f.injected.Store(0)
+	f.from.Store(int64(from))
+	f.n.Store(int64(n))
+	f.armed.Store(true)
+}
+
+func (f *c38ReadFaults) onRead() error {
+	if !f.armed.Load() {
+		return nil
+	}
+
+	if k, from := f.reads.Add(1), f.from.Load(); k >= from && k-from < f.n.Load() {
+		f.injected.Add(1)
+
+		return errC38ReadFault
+	}
+
+	return nil
+}
+
+type c38FaultyStorage struct {
+	leveldbStorage.Storage
+	faults *c38ReadFaults
+}
+
+func (s *c38FaultyStorage) Open(fd leveldbStorage.FileDesc) (leveldbStorage.Reader, error) {
+	rd, err := s.Storage.Open(fd)
+	if err != nil || fd.Type != leveldbStorage.TypeTable {
+		return rd, err
+	}
+
+	return &c38FaultyReader{Reader: rd, faults: s.faults}, nil
+}
+
+type c38FaultyReader struct {
+	leveldbStorage.Reader
+	faults *c38ReadFaults
+}
+
+func (rd *c38FaultyReader) ReadAt(b []byte, off int64) (int, error) {
+	if err := rd.faults.onRead(); err != nil {
+		return 0, err
+	}
+
+	return rd.Reader.ReadAt(b, off)
+}
+
+func (rd *c38FaultyReader) Read(b []byte) (int, error) {
+	if err := rd.faults.onRead(); err != nil {
+		return 0, err
+	}
+
+	return rd.Reader.Read(b)
 }
 
 type c38Program struct {
@@ -256,6 +334,12 @@ func c38GenProgram(t *rapid.T) c38Program {
 			ph.FaultN = rapid.SampledFrom([]int{1, 1, 2, 3, c38FaultSticky}).Draw(t, lb+"faultN")
 		}
 
+		// a transient read failure: mostly in later phases (then proposals handed out earlier sit in the table file)
+		if rapid.IntRange(0, 11).Draw(t, lb+"readFault") >= 12-c38ReadFaultOdds(i) {
+			ph.ReadFrom = rapid.IntRange(1, 16).Draw(t, lb+"readFrom")
+			ph.ReadN = rapid.SampledFrom([]int{1, 1, 1, 2, 3, c38FaultSticky}).Draw(t, lb+"readN")
+		}
+
 		nw := rapid.IntRange(1, 8).Draw(t, lb+"workers")
 		if nw == 1 && rapid.Bool().Draw(t, lb+"atLeast2") {
 			nw = 2
@@ -284,6 +368,24 @@ func c38GenProgram(t *rapid.T) c38Program {
 	return p
 }
 
+func c38ReadFaultOdds(phase int) int { // out of 12
+	if phase == 0 {
+		return 1
+	}
+
+	return 4
+}
+
+func (p c38Program) hasReadFault() bool {
+	for _, ph := range p.Phases {
+		if ph.ReadFrom > 0 {
+			return true
+		}
+	}
+
+	return false
+}
+
 func (p c38Program) fingerprint() string {
 	var b strings.Builder
 	fmt.Fprintf(&b, "limit%d gate%d reject%v", p.Limit, p.GateOps, p.Reject)
@@ -305,6 +407,14 @@ func (p c38Program) fingerprint() string {
 			fmt.Fprintf(&b, " refuse-writes(%d..)", ph.FaultFrom)
 		default:
 			fmt.Fprintf(&b, " refuse-writes(%d..%d)", ph.FaultFrom, ph.FaultFrom+ph.FaultN-1)
+		}
+
+		switch {
+		case ph.ReadFrom < 1:
+		case ph.ReadN == c38FaultSticky:
+			fmt.Fprintf(&b, " compact+fail-table-reads(%d..)", ph.ReadFrom)
+		default:
+			fmt.Fprintf(&b, " compact+fail-table-reads(%d..%d)", ph.ReadFrom, ph.ReadFrom+ph.ReadN-1)
 		}
 
 		for g, calls := range ph.Workers {
@@ -398,7 +508,25 @@ func c38OpsDesc(pr base.ProposalSignFact) string {
 }
 
 func c38Run(t ev.TB, r *ev.Rec, w *c38World, p c38Program) (classes []string, nontrivial bool) {
-	st := leveldbstorage.NewMemStorage()
+	// Programs with a read failure run on a goleveldb mem storage wrapped with the read-fault layer, without block cache and without
+	// open-files cache (a pool larger than the caches: a lookup goes to the table file); all others on the plain mem storage.
+	var st *leveldbstorage.Storage
+
+	readFaults := &c38ReadFaults{}
+
+	if p.hasReadFault() {
+		var err error
+
+		if st, err = leveldbstorage.NewStorage(
+			&c38FaultyStorage{Storage: leveldbStorage.NewMemStorage(), faults: readFaults},
+			&leveldbOpt.Options{DisableBlockCache: true, OpenFilesCacheCapacity: -1},
+		); err != nil {
+			t.Fatalf("harness: storage: %v", err)
+		}
+	} else {
+		st = leveldbstorage.NewMemStorage()
+	}
+
 	defer st.Close() // TempPool.Close leaves the goleveldb goroutines of the storage running
 
 	pool, err := isaacdatabase.NewTempPool(st, w.db.Encs, w.db.Enc, 0)
@@ -491,6 +619,8 @@ func c38Run(t ev.TB, r *ev.Rec, w *c38World, p c38Program) (classes []string, no
 	var marks []c38CleanMark
 
 	topAsked := -1 // highest height asked for so far
+
+	readInjected := make([]int64, len(p.Phases)) // table reads failed while the calls of the phase ran
 
 	for pi, ph := range p.Phases {
 		if ph.Reopen {
@@ -618,6 +748,15 @@ func c38Run(t ev.TB, r *ev.Rec, w *c38World, p c38Program) (classes []string, no
 			}()
 		}
 
+		if ph.ReadFrom > 0 {
+			// everything written so far moves from the memtable to a table file (no calls are running, nothing is refused)
+			if err := st.DB().CompactRange(leveldbutil.Range{}); err != nil {
+				t.Fatalf("harness: compact: %v", err)
+			}
+
+			readFaults.arm(ph.ReadFrom, ph.ReadN)
+		}
+
 		if ph.FaultFrom > 0 {
 			faultWrites.Store(0)
 			faultFrom.Store(int64(ph.FaultFrom))
@@ -629,6 +768,10 @@ func c38Run(t ev.TB, r *ev.Rec, w *c38World, p c38Program) (classes []string, no
 		wg.Wait()
 
 		faultArmed.Store(false)
+
+		if readFaults.armed.Swap(false) {
+			readInjected[pi] = readFaults.injected.Load()
+		}
 	}
 
 	// ---- oracle
@@ -700,6 +843,18 @@ func c38Run(t ev.TB, r *ev.Rec, w *c38World, p c38Program) (classes []string, no
 
 			if sameProposal(res.PR, first) {
 				continue
+			}
+
+			readFailed := false
+
+			for pi := rs[0].Phase; pi <= res.Phase; pi++ {
+				readFailed = readFailed || readInjected[pi] > 0
+			}
+
+			if readFailed {
+				r.Violation(t, "two-proposals-one-position-after-read-failure", "position %s got two different proposals: %s (phase %d g%d %s) and %s (phase %d g%d %s); "+
+					"a read of the storage's table file failed (transient I/O error) while the calls of a phase in between ran: a call may fail on it, but not hand out another proposal; program %s",
+					pos, first.Fact().Hash(), rs[0].Phase, rs[0].Worker, rs[0].Call, res.PR.Fact().Hash(), res.Phase, res.Worker, res.Call, prog)
 			}
 
 			if cleaned {
@@ -899,6 +1054,46 @@ func c38Run(t ev.TB, r *ev.Rec, w *c38World, p c38Program) (classes []string, no
 		}
 	}
 
+	// a table read failed while a position was asked for whose proposal had been handed out in an earlier phase (and sits in the
+	// table file since the compaction)
+	anyReadFailed, handedOutThenReadFailed, failedOnRead := false, false, false
+
+	for pi, ph := range p.Phases {
+		if readInjected[pi] < 1 {
+			continue
+		}
+
+		anyReadFailed = true
+
+		for _, calls := range ph.Workers {
+			for _, c := range calls {
+				for _, other := range answered[c.Pos] {
+					if other.Phase < pi && c38Epoch(marks, c.Pos, other.Phase) == c38Epoch(marks, c.Pos, pi) {
+						handedOutThenReadFailed = true
+					}
+				}
+			}
+		}
+	}
+
+	for _, res := range results {
+		if res.Err != nil && strings.Contains(res.Err.Error(), errC38ReadFault.Error()) {
+			failedOnRead = true
+		}
+	}
+
+	if anyReadFailed {
+		classes = append(classes, "storage-read-failed")
+	}
+
+	if failedOnRead {
+		classes = append(classes, "call-failed-on-read-failure")
+	}
+
+	if handedOutThenReadFailed {
+		classes = append(classes, "handed-out-position-asked-again-under-read-failure")
+	}
+
 	if concurrentSamePos {
 		classes = append(classes, "concurrent-calls-one-position")
 	}
@@ -971,7 +1166,7 @@ func c38Run(t ev.TB, r *ev.Rec, w *c38World, p c38Program) (classes []string, no
 		}
 	}
 
-	nontrivial = (concurrentSamePos && poolNonEmptyDuringCalls) || refusedThenAnswered || answeredAcrossCleanup
+	nontrivial = (concurrentSamePos && poolNonEmptyDuringCalls) || refusedThenAnswered || answeredAcrossCleanup || handedOutThenReadFailed
 
 	return classes, nontrivial
 }
@@ -985,13 +1180,18 @@ func TestC38(t *testing.T) {
 		"of 3 consecutive heights around the last block, in a third of those plus one higher, unreachable height), " +
 		"optionally operations added concurrently; history faults: in 1/3 of the phases the k-th (1..4) storage write issued while the calls run is refused (1, 2, 3 or all later writes of the phase; " +
 		"leveldb fault hook H3), writes work again afterwards; in 1/4 of the later phases the pool is closed and re-opened on the same storage with a new maker (restart); " +
-		"before half of the later phases the pool's proposal cleanup (what the clean daemon does every 33 min; hook H4 VerifCleanProposals) runs 1..3 times, then the positions are asked again with a changed operation pool. " +
+		"before half of the later phases the pool's proposal cleanup (what the clean daemon does every 33 min; hook H4 VerifCleanProposals) runs 1..3 times, then the positions are asked again with a changed operation pool; " +
+		"transient read failure: in 1/3 of the later phases (1/12 of the first) the storage is compacted right before the calls (memtable -> table file) and the k-th (1..16) read of a table file issued while the calls run fails " +
+		"(1, 2, 3 or all later reads of the phase; goleveldb storage wrapper under leveldbstorage.NewStorage, no block cache, no open-files cache), reads work again afterwards. " +
 		"non-trivial: >=2 goroutines ask for one position in one phase and the pool is not empty, or a call failed on a refused write and the same position was answered in the same or a later phase, " +
-		"or a position less than 3 heights below the highest height asked so far was answered before and after a cleanup; distinct by the whole program")
+		"or a position less than 3 heights below the highest height asked so far was answered before and after a cleanup, " +
+		"or a table read failed in a phase that asks for a position whose proposal was handed out in an earlier phase; distinct by the whole program")
 	r.Floor(100)
 	r.Assume(
 		"an error return (e.g. too old, or the storage refused the write) is not a proposal and is not judged; a panic out of Make/PreferEmpty is judged as a failure to return the proposal",
 		"a proposal returned without error counts as handed out whatever happened to the storage write: all proposals handed out for one position over the whole history (refused writes, restarts) must be the same, and the pool's by-point lookup must return it",
+		"a failed table read (I/O error from the storage's ReadAt) is transient and leaves the stored data unchanged; a call that returns an error because of it hands out nothing; a call that returns a proposal is judged like any other "+
+			"(programs with a read failure run without leveldb block cache and open-files cache, as a pool larger than the caches would: a lookup reads the table file)",
 		"a refused storage write returns an error to the pool and leaves the storage unchanged (no partial batch); refused writes that hit the concurrent SetOperation writer only keep that operation out of the pool",
 		"'the same signed proposal' = same fact hash and same HashBytes; 'for that position' = the fact carries the asked point, previous block and the local proposer",
 		"the pool cleanup daemon (33 min tick) is not running; its proposal step is called directly between phases (never while calls run). The pool is specified to keep the proposals of the newest stored height and the two heights below it "+
